@@ -301,8 +301,22 @@ def verif_corpus():
     return out
 
 
-def verif_corpus_wf():
-    """well-formed regression inputs (must load)"""
+def verif_corpus_wf(include_big=()):
+    """well-formed regression inputs (must load); files named big_<tag>_* are slow to observe
+    (tens of thousands of layers or frames) and only used by the routines that ask for that tag"""
+    if include_big is True:
+        include_big = ("layers", "frames")
+    out = []
+    for c, b in _verif_corpus_wf():
+        name = c[len("corpus/wf/"):]
+        tag = name.split("_")[1] if name.startswith("big_") else None
+        if tag in ("layers", "frames") and tag not in (include_big or ()):
+            continue
+        out.append((c, b))
+    return out
+
+
+def _verif_corpus_wf():
     out = []
     for f in sorted(glob.glob(os.path.join(VERIF, "corpus", "wf", "*.hex"))):
         hx = "".join(open(f).read().split())
